@@ -165,12 +165,12 @@ StreamVectors ==
 \* that very function value; a client configuration is reused for redials).  The decision must be a
 \* FUNCTION of (certificate, configuration): the verdict of the k-th call on an instance is
 \* Accept(calls[k], cfg) whatever was presented before.
-\* Certificates: A and B satisfy every condition other than the pin (trusted chain, valid, usable for
-\* both roles, carrying the expected name as receptor name and dNSName) and differ only in identity;
-\* X differs from B in the chain only (other authority).  A pin names a digest algorithm and the
+\* Certificates: A, B and C satisfy every condition other than the pin (trusted chain, valid, usable for
+\* both roles, carrying the expected name as receptor name and dNSName) and differ only in identity
+\* (C is never pinned); X differs from them in the chain only (other authority).  A pin names a digest algorithm and the
 \* certificate it is the digest of.
-SeqCerts == {"A", "B", "X"}
-SeqOtherOK(c) == c \in {"A", "B"}
+SeqCerts == {"A", "B", "C", "X"}
+SeqOtherOK(c) == c \in {"A", "B", "C"}
 Pin(alg, c) == [alg |-> alg, of |-> c]
 SeqPinLists == {<<>>, <<Pin("256", "A")>>, <<Pin("512", "A")>>, <<Pin("256", "A"), Pin("512", "B")>>,
                 <<Pin("512", "B"), Pin("256", "A")>>, <<Pin("256", "A"), Pin("512", "A")>>}
@@ -191,12 +191,14 @@ ModelVerdict(calls, pins, k) ==
   IF KF_DigestCachedAcrossCalls THEN SeqOtherOK(calls[k]) /\ CachedPinOK(calls, pins, k)
   ELSE SeqAccept(calls[k], pins)
 
-CallSeqs == UNION { [1..n -> SeqCerts] : n \in 1..3 }
+CallSeqs == { <<a>> : a \in SeqCerts } \cup { <<a, b>> : a, b \in SeqCerts }
+            \cup { <<a, b, c>> : a, b, c \in {"A", "B", "C"} }
 SeqVec(ro, mo, pins, cs) ==
   [fam |-> "seq", issuer |-> "-", validity |-> "-", usage |-> "-", names |-> "-", pins |-> <<>>, role |-> ro, mode |-> mo,
    src |-> <<>>, namekind |-> "-", certnames |-> <<>>, seqpins |-> pins,
-   calls |-> [k \in 1..Len(cs) |-> [cert |-> cs[k], accept |-> ModelVerdict(cs, pins, k),
-                                     pinok |-> SeqPinOK(cs[k], pins), otherok |-> SeqOtherOK(cs[k])]],
+   calls |-> LET C(k) == [cert |-> cs[k], accept |-> ModelVerdict(cs, pins, k),
+                          pinok |-> SeqPinOK(cs[k], pins), otherok |-> SeqOtherOK(cs[k])]
+             IN IF Len(cs) = 1 THEN <<C(1)>> ELSE IF Len(cs) = 2 THEN <<C(1), C(2)>> ELSE <<C(1), C(2), C(3)>>,   \* a tuple, not a function
    conds |-> [chain |-> TRUE, time |-> TRUE, usage |-> TRUE, pin |-> TRUE, name |-> TRUE], nfail |-> 0, only |-> "-",
    pins_wellformed |-> TRUE, pins_configurable |-> TRUE, expect |-> [prop |-> TRUE, code |-> TRUE]]
 SeqVectors == { SeqVec(ro, mo, pins, cs) : ro \in Roles, mo \in Modes, pins \in SeqPinLists, cs \in CallSeqs }
@@ -205,7 +207,9 @@ AllVectors == TableVectors \cup StreamVectors \cup SeqVectors
 
 \* ---------------------------------------------------------------- state machine: one state per vector
 VARIABLE vec
-Init == vec \in AllVectors
+\* the families are disjoint (field fam); enumerating them one by one spares TLC the element-wise
+\* de-duplication of a union of lazily enumerated sets (measured: 140 s instead of 30 s)
+Init == vec \in TableVectors \/ vec \in StreamVectors \/ vec \in SeqVectors
 Next == UNCHANGED vec
 Spec == Init /\ [][Next]_vec
 
@@ -278,7 +282,8 @@ W_NoPinnedThenUnpinned == ~(IsSeq /\ Len(vec.calls) >= 2 /\ vec.calls[1].accept 
                               /\ vec.calls[2].otherok /\ ~vec.calls[2].pinok /\ ~vec.calls[2].accept)
 W_NoUnpinnedThenPinned == ~(IsSeq /\ Len(vec.calls) >= 2 /\ vec.calls[1].otherok /\ ~vec.calls[1].pinok /\ vec.calls[2].accept
                               /\ vec.seqpins # <<>>)
-W_NoTwoAlgs            == ~(IsSeq /\ Len(vec.seqpins) = 2 /\ Len(vec.calls) = 3 /\ vec.calls[1].accept /\ vec.calls[2].accept
+W_NoTwoAlgs            == ~(IsSeq /\ Len(vec.seqpins) = 2 /\ vec.seqpins[1].of # vec.seqpins[2].of
+                              /\ Len(vec.calls) = 3 /\ vec.calls[1].accept /\ vec.calls[2].accept
                               /\ vec.calls[1].cert # vec.calls[2].cert /\ ~vec.calls[3].accept /\ vec.calls[3].otherok)
 \* a source id containing ':' is accepted with its own full name, and its prefix is a refused near miss
 W_NoColonSrcAccept == ~(IsStream /\ HasColon(vec.src) /\ vec.namekind = "src" /\ vec.expect.code)
@@ -287,5 +292,5 @@ W_NoColonPrefixRefused == ~(IsStream /\ HasColon(vec.src) /\ vec.namekind = "cod
 \* ---------------------------------------------------------------- export
 ASSUME NameSets \subseteq NameSetUniverse
 ASSUME \A p \in PinLists : Range(p) \subseteq PinKinds
-ASSUME DumpFile = "" \/ ndJsonSerialize(DumpFile, SetToSeq(AllVectors))
+ASSUME DumpFile = "" \/ ndJsonSerialize(DumpFile, SetToSeq(TableVectors) \o SetToSeq(StreamVectors) \o SetToSeq(SeqVectors))
 =============================================================================
